@@ -812,6 +812,10 @@ class Interp:
         if re.fullmatch(r"[\w:]+", s) and s.split("::")[-1] in self.harper_types:
             return Adt(s.split("::")[-1], [])  # a unit struct
         ci = re.fullmatch(r"(?:[\w]+::)*([A-Z][A-Z0-9_]*)", s)
+        if ci and ci.group(1) in self.raw and self.raw[ci.group(1)][0][0].startswith("fn " + ci.group(1) + "() -> LocalKey<"):
+            a = Adt("LocalKey", [])  # a `thread_local!` key (its const item only wraps the accessor)
+            a.tl_name = ci.group(1)
+            return a
         if ci and ci.group(1) in self.raw and self.raw[ci.group(1)][0][0].startswith("fn " + ci.group(1) + "() -> "):
             # a `const NAME: T = ..` item (loaded as a parameterless function); refused when the name is not unique
             if len(self.raw[ci.group(1)]) != 1:
